@@ -122,6 +122,15 @@ func CustomCase(r *rand.Rand, name string, o CustomOpts) *Case {
 				fmt.Fprintf(sb, "func %s(c Converter, a ty.HA%d) ty.HB%d {\n\t_ = c\n\treturn %s\n}\n\n", fname, i, i, hookBody(fname, ""))
 				roles = []string{"conv", "source"}
 			default:
+				if kind == "extend" && o.Format == "variables" && r.Intn(2) == 0 {
+					// an UNEXPORTED function of the output package (the variables format emits into conv): accessible;
+					// the glue reaches it through an exported wrapper
+					priv := "ext" + fname[3:] + "priv"
+					fmt.Fprintf(sb, "func %s(a ty.HA%d) ty.HB%d {\n\treturn %s\n}\n\nfunc %s(a ty.HA%d) ty.HB%d { return %s(a) }\n\n", priv, i, i, hookBody(priv, ""), fname, i, i, priv)
+					line = "extend " + priv
+					kindsUsed["extendUnexported"] = true
+					break
+				}
 				fmt.Fprintf(sb, "func %s(a ty.HA%d) ty.HB%d {\n\treturn %s\n}\n\n", fname, i, i, hookBody(fname, ""))
 				if kind == "extendRegex" {
 					// look-alikes that the pattern Hook<i>.* must not select (the match has to cover the whole name)
